@@ -340,7 +340,8 @@ let predict (c : string) (obs : string) : string * string * bool =
         | _ -> "BAD:unparsable-observation") in
       (p, v, n > 1 || !any_pp)
   | "gcall" ->
-      let _inst = num () in
+      let gun = next () in
+      let inst = num () in
       let tmo = num () in
       let _answ = next () in
       let n = num () in
@@ -356,19 +357,25 @@ let predict (c : string) (obs : string) : string * string * bool =
           | [c] -> GbAnswer (n_of_int 0, n_of_int (int_of_string c))
           | _ -> failwith "gcall srv")) in
       (* the samples of instances working side by side are, as a multiset, those of one instance taking every ammo *)
-      let ((samples, _elapsed), stuck) = instance_timed conv code_ctx (n_of_int tmo) calls in
+      (* scenario gun: the calls are the steps of one scenario, run `inst` times *)
+      let rep l = List.concat (List.init inst (fun _ -> l)) in
+      let ((samples, _elapsed), stuck) =
+        if gun = "s" then (let ((ss, el), st) = scenario_timed conv code_ctx (n_of_int tmo) calls in ((rep ss, el), st))
+        else instance_timed conv code_ctx (n_of_int tmo) calls in
       let show_s (s : sample) = Printf.sprintf "%d:%s" (int_of_z s.sm_code) (field_of_bool s.sm_err) in
       let ss = List.sort compare (List.map show_s samples) in
       let p = Printf.sprintf "run=%s n=%d timely=1%s" (if stuck then "hang" else "ok") (List.length ss) (String.concat "" (List.map (fun x -> " " ^ x) ss)) in
       (* specification: run ok; one sample per ammo; a call met with silence is given up within the configured timeout
          (+ slack) and reported with the DeadlineExceeded status, an answered one with the mapped status of the answer *)
-      let want = List.sort compare (List.map (fun c ->
-        show_s (match grpc_shoot (result_of conv (n_of_int tmo) c) with Returned [s] -> s | _ -> failwith "grpc_shoot")) calls) in
+      let want = List.sort compare (List.map show_s (
+        if gun = "s" then
+          (match grpc_scn_shoot (List.map (gstep_of conv (n_of_int tmo)) calls) with Returned ss -> rep ss | _ -> failwith "grpc_scn_shoot")
+        else List.map (fun c -> match grpc_shoot (result_of conv (n_of_int tmo) c) with Returned [s] -> s | _ -> failwith "grpc_shoot") calls)) in
       let v = (match split_blank obs with
         | run :: cnt :: timely :: rest ->
             if run = "run=panic" then "BAD:run-aborted-by-panic"
             else if run <> "run=ok" then "BAD:run-" ^ (String.sub run 4 (String.length run - 4))
-            else if cnt <> Printf.sprintf "n=%d" n then "BAD:sample-count"
+            else if cnt <> Printf.sprintf "n=%d" (List.length want) then "BAD:sample-count"
             else if timely <> "timely=1" then "BAD:silent-call-not-given-up-within-timeout"
             else if rest <> want then "BAD:sample-content"
             else "ok"
